@@ -1,5 +1,7 @@
 pub mod c03;
 pub mod c05;
+pub mod c10;
+pub mod c13;
 pub mod conn;
 pub mod smoke;
 pub mod tables;
@@ -37,6 +39,8 @@ pub fn dispatch(args: &[String]) -> i32 {
         "conn" => conn::main(&a),
         "c05" => c05::main(&a),
         "c03" => c03::main(&a),
+        "c10" => c10::main(&a),
+        "c13" => c13::main(&a),
         "table-tiebreak" => tables::tiebreak(&a),
         other => {
             eprintln!("unknown scenario {other}");
